@@ -29,6 +29,11 @@ pub struct RespBody {
     pub opt: Option<String>,
     pub nested: Option<Box<RespBody>>,
     pub flag: bool,
+    /// integers wider than 64 bits (serde_json writes them as plain JSON numbers)
+    #[serde(default)]
+    pub wide: u128,
+    #[serde(default)]
+    pub wide_neg: i128,
 }
 
 #[derive(Clone, Debug, Serialize, Deserialize, JsonSchema)]
@@ -103,8 +108,10 @@ fn resp_body() -> impl Strategy<Value = RespBody> {
         proptest::collection::vec((any_string(), any_string()), 0..4),
         proptest::option::of(any_string()),
         any::<bool>(),
+        prop_oneof![3 => Just(0u128), 2 => any::<u64>().prop_map(|x| x as u128), 2 => any::<u128>(), 1 => Just(u64::MAX as u128 + 1), 1 => Just(u128::MAX)],
+        prop_oneof![3 => Just(0i128), 2 => any::<i64>().prop_map(|x| x as i128), 2 => any::<i128>(), 1 => Just(i64::MIN as i128 - 1), 1 => Just(i128::MIN)],
     )
-        .prop_map(|(text, n, i, list, map, opt, flag)| RespBody { text, n, i, list, map: map.into_iter().collect(), opt, nested: None, flag });
+        .prop_map(|(text, n, i, list, map, opt, flag, wide, wide_neg)| RespBody { text, n, i, list, map: map.into_iter().collect(), opt, nested: None, flag, wide, wide_neg });
     leaf.prop_recursive(3, 4, 1, |inner| {
         (inner.clone(), proptest::option::of(inner)).prop_map(|(mut a, b)| {
             a.nested = b.map(Box::new);
@@ -303,8 +310,12 @@ fn judge(s: &RespSpec, status: u16, headers: &[(String, Vec<u8>)], body: &[u8], 
             ensure!(ct.len() == 1 && ct[0] == b"application/json", format!("content-type:{}", kn), "{}: content-type {:?}", kn, ct);
             let got: RespBody = serde_json::from_slice(body).map_err(|e| Failure::new(format!("body-not-json:{}", kn), format!("{}: {}", e, truncate(&String::from_utf8_lossy(body), 300))))?;
             ensure!(got == s.typed, format!("body-differs:{}", kn), "{}: body parses back to {:?} but the handler returned {:?}", kn, got, s.typed);
-            let gv: Value = serde_json::from_slice(body).unwrap();
-            ensure!(gv == serde_json::to_value(&s.typed).unwrap(), format!("body-differs:{}", kn), "{}: JSON value differs", kn);
+            // (a serde_json::Value cannot hold integers wider than 64 bits, so the untyped comparison is
+            // made only when the value has none)
+            if let Ok(want) = serde_json::to_value(&s.typed) {
+                let gv: Value = serde_json::from_slice(body).unwrap();
+                ensure!(gv == want, format!("body-differs:{}", kn), "{}: JSON value differs", kn);
+            }
         }
         Kind::Deleted | Kind::Updated | Kind::Found | Kind::SeeOther | Kind::TempRedirect => {
             ensure!(body.is_empty(), format!("body-not-empty:{}", kn), "{}: body should be empty, got {} bytes", kn, body.len());
